@@ -435,21 +435,51 @@ func (p *Prog) inlineOverlay(overlay map[string][]byte, forceBlock map[string]bo
 						s    string
 					}
 					var defReps []bodyRep
-					if as, isAssign := stmt.(*ast.AssignStmt); !flat && !direct && nres > 0 && isAssign && (as.Tok == token.ASSIGN || as.Tok == token.DEFINE) && len(as.Rhs) == 1 && ast.Unparen(as.Rhs[0]) == ast.Expr(call) && len(as.Lhs) == nres {
+					// `return helper(..)` in a function with named results is `r1, r2 = helper(..); return`
+					returnForm, namedMatch := false, false
+					var lhs []*ast.Ident
+					lhsTok := token.ASSIGN
+					if as, isAssign := stmt.(*ast.AssignStmt); isAssign && (as.Tok == token.ASSIGN || as.Tok == token.DEFINE) && len(as.Rhs) == 1 && ast.Unparen(as.Rhs[0]) == ast.Expr(call) && len(as.Lhs) == nres {
+						lhsTok = as.Tok
+						for _, l := range as.Lhs {
+							id, _ := l.(*ast.Ident)
+							lhs = append(lhs, id)
+						}
+					} else if rs, isRet := stmt.(*ast.ReturnStmt); isRet && len(rs.Results) == 1 && ast.Unparen(rs.Results[0]) == ast.Expr(call) && caller.Type.Results != nil {
+						for _, fl := range caller.Type.Results.List {
+							for _, nm := range fl.Names {
+								lhs = append(lhs, nm)
+							}
+						}
+						// the enclosing function must be the declaration itself (not a literal inside it)
+						inLit := false
+						for _, a := range stack {
+							if _, isLit := a.(*ast.FuncLit); isLit {
+								inLit = true
+							}
+						}
+						if len(lhs) == nres && !inLit {
+							returnForm = true
+						} else {
+							lhs = nil
+						}
+					}
+					if !flat && !direct && nres > 0 && len(lhs) == nres {
 						targets := map[string]int{}
 						okU := true
 						var hoistU, names []string
-						for i, l := range as.Lhs {
-							id, isId := l.(*ast.Ident)
-							if !isId || id.Name == "_" {
+						for i, id := range lhs {
+							if id == nil || id.Name == "_" {
 								okU = false
 								break
 							}
 							targets[id.Name] = i
 							names = append(names, id.Name)
-							if as.Tok == token.DEFINE && info.Defs[id] != nil {
+							switch {
+							case returnForm:
+							case lhsTok == token.DEFINE && info.Defs[id] != nil:
 								hoistU = append(hoistU, fmt.Sprintf("var %s %s\n_ = %s\n", id.Name, types.TypeString(sig.Results().At(i).Type(), qual), id.Name))
-							} else {
+							default:
 								hoistU = append(hoistU, fmt.Sprintf("%s = %s\n", id.Name, zeroText(sig.Results().At(i).Type(), qual)))
 							}
 						}
@@ -464,10 +494,30 @@ func (p *Prog) inlineOverlay(overlay map[string][]byte, forceBlock map[string]bo
 									}
 								}
 							}
+							// named results of the helper that carry the very names of the targets ARE the targets
+							resultIdent := map[*ast.Ident]bool{}
+							if fd.Type.Results != nil {
+								var rn []*ast.Ident
+								for _, fl := range fd.Type.Results.List {
+									rn = append(rn, fl.Names...)
+								}
+								match := len(rn) == len(names)
+								for i := range rn {
+									if match && rn[i].Name != names[i] {
+										match = false
+									}
+								}
+								if match {
+									namedMatch = true
+									for _, id := range rn {
+										resultIdent[id] = true
+									}
+								}
+							}
 							rew := map[*ast.AssignStmt]bool{}
 							ast.Inspect(fd, func(q ast.Node) bool {
 								id, isId := q.(*ast.Ident)
-								if !isId {
+								if !isId || resultIdent[id] {
 									return true
 								}
 								obj, isVar := info.Defs[id].(*types.Var)
@@ -603,7 +653,7 @@ func (p *Prog) inlineOverlay(overlay map[string][]byte, forceBlock map[string]bo
 								named[i] = temps[i]
 								continue
 							}
-							if direct && !flat {
+							if direct && !flat || directU && namedMatch {
 								continue // the caller's own variables, declared or zeroed in front of the block
 							}
 							if flat && unified[nm] {
@@ -713,6 +763,9 @@ func (p *Prog) inlineOverlay(overlay map[string][]byte, forceBlock map[string]bo
 					csrc := srcOf(sa.Filename)
 					if csrc == nil || se.Offset > len(csrc) || ca < sa.Offset || ce > se.Offset {
 						return true
+					}
+					if directU && returnForm {
+						b.WriteString("return")
 					}
 					if nres > 0 && !(direct && !flat) && !directU {
 						same := false
